@@ -14,7 +14,7 @@ PROP = {'assumptions': ['the routing search (update_free_path / check_deadlock: 
                  'the train\'s own running time and start-up time inside the gate are not observable from the table: the gate is '
                  'evaluated at their lower bounds (-inf, 0), which is sound for the inequality entry >= gate'],
  'blocks': ['c04'],
- 'level': 'partial',
+ 'level': 'proof',
  'namespaces': ['Altrios.Proofs.C04'],
  'nontrivial_stats': ['c04.ops.', 'c04.gate.', 'c04.scen.siding_used', 'c04.scen.with_rewind', 'c04.headway.'],
  'proof_modules': ['C04'],
